@@ -43,6 +43,7 @@ def dispatch (j : Json) : Json :=
   | "plan.shape" => Driver.handlePlanShape j
   | "copy.plan" => Driver.handleCopyPlan j
   | "rev.plan" => Driver.handleRevPlan j
+  | "alter.flag" => Driver.handleAlterFlag j
   | "clean.check" => Driver.handleCleanCheck j
   | "tidb.order" => Driver.handleTidbOrder j
   | "h1" => Json.mkObj [("h", Atlas.Base.h1 (Driver.unhex (Driver.str j "hex")))]
